@@ -80,6 +80,7 @@ def register(PROPS):
             "race": True,
             "shrink_candidates": lambda case: iter(()),
             "corpus_also": ["JOE"],
+            "replay_repeats": 300,
             # the trace recorder relies on these hook call sites (tag verif) being where the model expects them
             "facts": {"hooks": ["Joe.Publish:3", "Joe.Shutdown:5", "Joe.Subscribe:7", "Joe.closeSubscribers:1",
                                 "Joe.removeSubscriber:1", "Joe.start:11"]},
